@@ -313,6 +313,10 @@ ORD_VARS = {
 }
 
 
+class _ForeignKey(Exception):
+    pass
+
+
 def _cmp_literal(cf, e):
     """Boolean expression -> nested ('cmp', var, set of orderings for which it is true) / ('not', x) / ('const', b)."""
     e = strip_casts(e)
@@ -324,7 +328,7 @@ def _cmp_literal(cf, e):
         x, y = norm_cmp(cf, e[2]), norm_cmp(cf, e[3])
         key = frozenset((x, y))
         if key not in ORD_VARS:
-            raise Inconclusive("comparator compares %s with %s, which is not one of the documented keys" % (x, y))
+            raise _ForeignKey("it compares %s with %s, which is not one of the documented keys (score, placeholder index, total column length, index)" % (x, y))
         var, first = ORD_VARS[key]
         truth = {"Eq": "=", "Ne": "<>", "Lt": "<", "Le": "<=", "Gt": ">", "Ge": ">="}[e[1]]
         if x != first:  # operands swapped relative to the variable's orientation
@@ -360,6 +364,15 @@ def check_comparator(ctx, cf):
     import itertools
     from cfg import decision_paths
     paths = decision_paths(cf)
+    table = []
+    try:
+        return _check_comparator(ctx, cf, paths)
+    except _ForeignKey as ex:
+        ctx.violation("%s|chain|0" % cf.path, site(cf, 0), "sort comparator deviates from the documented order: %s" % ex)
+
+
+def _check_comparator(ctx, cf, paths):
+    import itertools
     table = []
     for conds, res in paths:
         if res is None:
